@@ -887,7 +887,7 @@ theorem writeBytes_plain (target : Comps) (order : Bool) (d : Entries) {fl : Fla
 
 
 /-- one overwriting `parse` of a comment-free source in any world that holds it: the derived target holds `writeBytes`
-    of the dict read, which is returned -/
+    of the dict read, which is returned with its string leaves re-typed (`_retype_values` works in place) -/
 theorem parse_step_plain (ev : Str → EvalResult) {w : World} {src : Comps} (o : ReadOpts) (mode : Str) (output : Option Str)
     {es : SrcEntries} {gaps : List Str} {tail : Str} (hdoc : PlainDoc es gaps tail)
     (hfile : w.fs.get (resolveSpelled src) = some (.native (spreadS (srcToksEs es) gaps tail))) (hc : V w.c)
@@ -895,7 +895,8 @@ theorem parse_step_plain (ev : Str → EvalResult) {w : World} {src : Comps} (o 
     {sd : SD} (hr : postRead ev o { data := denSrcEs es [] } = .ok (some sd))
     {t : Str} (ht : writeBytes (parseTarget src o.scope output) o.order (.sd sd) = some t) :
     ∃ c', apiStep ev w (.parse src o mode output) =
-      ({ fs := w.fs.set (resolveSpelled (parseTarget src o.scope output)) (.native t), c := c' }, .data sd) := by
+      ({ fs := w.fs.set (resolveSpelled (parseTarget src o.scope output)) (.native t), c := c' },
+        .data { sd with data := normEs sd.data }) := by
   obtain ⟨c', hp⟩ := parseFile_plain hdoc hfile o.comments hc
   rw [hxj] at hp
   have hread : readFile ev w.fs o w.c src = .ok (.ok sd c') := by
@@ -964,7 +965,7 @@ theorem C08_write_unsupported_history (ev : Str → EvalResult) (ops : List ApiO
 /-- **C08 for `parse`, on histories.**  After any history that does not target the source, from any world with a
     counter value that can occur, `DictParser.parse(src, …)` in overwrite mode on a comment-free source writes into the
     derived file `parsed.<name>` bytes that are a function of the source document and the options alone (`writeBytes` of
-    `postRead` of the document's meaning), and returns that dict. -/
+    `postRead` of the document's meaning), and returns that dict, its string leaves re-typed by the writer. -/
 theorem C08_parse_bytes_history (ev : Str → EvalResult) (ops : List ApiOp) (w : World) (src : Comps) (o : ReadOpts)
     (mode : Str) (output : Option Str) {es : SrcEntries} {gaps : List Str} {tail : Str} (hdoc : PlainDoc es gaps tail)
     (hfile : w.fs.get (resolveSpelled src) = some (.native (spreadS (srcToksEs es) gaps tail)))
@@ -975,7 +976,7 @@ theorem C08_parse_bytes_history (ev : Str → EvalResult) (ops : List ApiOp) (w 
     {t : Str} (ht : writeBytes (parseTarget src o.scope output) o.order (.sd sd) = some t) :
     let r := apiRun ev w (ops ++ [.parse src o mode output])
     r.1.fs.get (resolveSpelled (parseTarget src o.scope output)) = some (.native t) ∧
-      r.2 = (apiRun ev w ops).2 ++ [.data sd] := by
+      r.2 = (apiRun ev w ops).2 ++ [.data { sd with data := normEs sd.data }] := by
   obtain ⟨c', h⟩ := parse_step_plain ev (w := (apiRun ev w ops).1) o mode output hdoc
     (by rw [C13api.run_frame ev _ ops w hops]; exact hfile) (run_valid_counter ev ops w hc) hxj hm hr ht
   simp only [apiRun_snoc, h]
